@@ -728,7 +728,7 @@ def r10_2(ctx):
     # the YAML trial answers with is_collection of the first chunk
     yt = trials["yaml"]
     okc = False
-    for bb, t in yt.calls():
+    for _, _, t in Super(lib, yt, depth=2).calls():
         f = fn_of(t) or {}
         cb = lib.by_id.get(f.get("resolved") or f.get("def"))
         if cb and cb.raw.get("ret_ty") == "bool" and cb.nargs == 1:
